@@ -516,6 +516,12 @@ impl CodegenContext {
     }
 
     fn emit_token(&mut self, token: &Token) -> CoreResult<()> {
+        #[cfg(mos_verif)]
+        if crate::verif_hooks::burn() {
+            return Err(Diagnostic::error()
+                .with_message("mos_verif: fuel exhausted")
+                .into());
+        }
         match token {
             Token::Align { value, .. } => {
                 if let Some(pc) = self.try_current_target_pc() {
@@ -1222,6 +1228,12 @@ impl CodegenContext {
         add_symbols_for_block: Option<&Block>,
         f: F,
     ) -> CoreResult<()> {
+        #[cfg(mos_verif)]
+        if crate::verif_hooks::burn() {
+            return Err(Diagnostic::error()
+                .with_message("mos_verif: fuel exhausted")
+                .into());
+        }
         let old_scope_nx = self.current_scope_nx;
         self.current_scope.push(scope);
         self.current_scope_nx = self
@@ -1349,6 +1361,75 @@ impl CodegenContext {
     }
 }
 
+#[cfg(mos_verif)]
+impl CodegenContext {
+    /// Reports the state after a pass to the verification harness; `true` = stop the pass loop.
+    fn verif_after_pass(&self, errors: &Diagnostics) -> bool {
+        use std::collections::hash_map::DefaultHasher;
+        use std::hash::{Hash, Hasher};
+        if !crate::verif_hooks::has_pass_observer() {
+            return false;
+        }
+        let one = |f: &dyn Fn(&mut DefaultHasher)| {
+            let mut h = DefaultHasher::new();
+            f(&mut h);
+            h.finish()
+        };
+        let mut digest = 0u64;
+        let mut symbols = vec![];
+        for (path, (_, symbol)) in self.symbols.all() {
+            let path = path.to_string();
+            let data = match &symbol.data {
+                SymbolData::MacroDefinition(_) => "<macro>".to_string(),
+                data => format!("{:?}", data),
+            };
+            digest = digest.wrapping_add(one(&|h| {
+                0u8.hash(h);
+                path.hash(h);
+                data.hash(h);
+            }));
+            if let SymbolData::Number(n) = &symbol.data {
+                symbols.push((path, *n));
+            }
+        }
+        for u in &self.undefined {
+            let id = u.id.to_string();
+            let span = format!("{:?}", u.span);
+            digest = digest.wrapping_add(one(&|h| {
+                1u8.hash(h);
+                u.scope_nx.index().hash(h);
+                id.hash(h);
+                span.hash(h);
+            }));
+        }
+        for e in errors.iter() {
+            let text = format!("{:?}", e);
+            digest = digest.wrapping_add(one(&|h| {
+                2u8.hash(h);
+                text.hash(h);
+            }));
+        }
+        for (name, segment) in &self.segments {
+            let name = name.to_string();
+            let range = segment.range();
+            digest = digest.wrapping_add(one(&|h| {
+                3u8.hash(h);
+                name.hash(h);
+                range.hash(h);
+                segment.range_data().hash(h);
+            }));
+        }
+        symbols.sort();
+        crate::verif_hooks::after_pass(&crate::verif_hooks::PassInfo {
+            pass_idx: self.pass_idx,
+            digest,
+            num_undefined: self.undefined.len(),
+            num_errors: errors.len(),
+            symbols,
+        })
+    }
+}
+
 pub fn codegen(
     ast: Arc<ParseTree>,
     options: CodegenOptions,
@@ -1382,6 +1463,10 @@ pub fn codegen(
             }
         }
         ctx.after_pass().expect("Could not finalize pass");
+        #[cfg(mos_verif)]
+        if ctx.verif_after_pass(&errors) {
+            return (Some(ctx), errors);
+        }
 
         // Are there no segments yet? Then create a default one.
         if ctx.segments.is_empty() {
